@@ -18,7 +18,7 @@ RULE = ("cases from rng(seed, 7, 0, i): trajectory graphs of kind r2/r3/se2/se3 
         "and the optimizer moved some vertex by more than 1e-6.")
 REQ = ["eval:chi2-frame-invariant", "eval:trajectory-commutes-with-frame-change", "class:se2", "class:se3", "class:r2", "class:r3", "class:T:near180_or_pi", "class:K=1", "class:K=5",
        "class:landmarks", "class:straight_line_initial_guess(exact zero headings)", "class:frame_changed_in_place_on_same_objects", "class:landmarks_share_one_initial_guess_object",
-       "class:large_scale_map_far_landmark_guesses"]
+       "class:large_scale_map_far_landmark_guesses", "class:default_arguments_run"]
 PLAN = {
     "quick": {"cases": 1200, "soft_s": 80, "min_nontrivial": 300, "require": REQ},
     "thorough": {"cases": 50000, "soft_s": 1300, "min_nontrivial": 10000, "require": REQ},
@@ -38,7 +38,7 @@ def transform_spec(spec, k, T):
     return s
 
 
-def frame_check(ctx, spec, k, T, K, tl=(), where="generated", cond_max=1e8, inplace=False):
+def frame_check(ctx, spec, k, T, K, tl=(), where="generated", cond_max=1e8, inplace=False, default_args=False):
     """Compare G with T.G: chi2 and the state after K iterations.  Returns (moved, c0, c1, cond, worst, tol) or None."""
     n = len(spec["vertices"])
     spec_t = transform_spec(spec, k, T)
@@ -130,6 +130,23 @@ def frame_check(ctx, spec, k, T, K, tl=(), where="generated", cond_max=1e8, inpl
         except Exception as ex:
             ctx.check("trajectory-commutes-with-frame-change", False, dict(feats, exception=type(ex).__name__, frame_change="in place on the same objects"), {"message": str(ex)[:300]}, case)
         ctx.count("class:frame_changed_in_place_on_same_objects")
+    if default_args and amp < 30 and worst <= tol:
+        # the same comparison with the caller's defaults (tol = 1e-4, max_iter = 20): the stopping rule sees only chi2, which is frame invariant, so both
+        # runs stop after the same number of iterations with the same verdict - unless some relative decrease sits close to tol (then rounding decides)
+        try:
+            ga, gta = M.build(spec), M.build(spec_t)
+            ra, rt = M.quiet_optimize(ga), M.quiet_optimize(gta)
+            rels = [abs(x.rel_diff) for x in list(ra.iteration_results) + list(rt.iteration_results) if getattr(x, "rel_diff", None) is not None]
+            # also a close call: a relative change below 1e-9 (chi2 moving by a few ulps: whether it "increased" is decided by rounding)
+            close_call = any((not math.isfinite(x)) or (0.25e-4 < x < 4e-4) or x < 1e-9 for x in rels)
+            if close_call:
+                ctx.count("default_arguments_run_not_compared:relative_decrease_close_to_tol")
+            else:
+                ctx.check("trajectory-commutes-with-frame-change", ra.num_iterations == rt.num_iterations and bool(ra.converged) == bool(rt.converged),
+                          dict(feats, variant="default tol / max_iter: same stopping point"), {"num_iterations": [ra.num_iterations, rt.num_iterations], "converged": [ra.converged, rt.converged], "T": T}, case)
+                ctx.count("class:default_arguments_run")
+        except Exception as ex:
+            ctx.check("trajectory-commutes-with-frame-change", False, dict(feats, exception=type(ex).__name__, variant="default tol / max_iter"), {"message": str(ex)[:300]}, case)
     return moved, c0, c1, cond, worst, tol
 
 
@@ -160,7 +177,7 @@ def run_case(ctx, i, rng):
     for lab in tl:
         if lab in ("q:near180", "q:wzero", "q:axis180", "a:nearpi_in", "a:nearpi_out", "a:exact"):
             ctx.count("class:T:near180_or_pi")
-    res = frame_check(ctx, spec, k, T, K, inplace=bool(i % 3 == 0), cond_max=(1e12 if large else 1e8))
+    res = frame_check(ctx, spec, k, T, K, inplace=bool(i % 3 == 0), cond_max=(1e12 if large else 1e8), default_args=bool((i // 4) % 3 == 1))
     if res is None:
         return
     moved, c0, c1, cond, worst, tol = res
